@@ -105,6 +105,7 @@ Below(p)  == ToSet(Input.below[p])           \* positions nested inside the comp
 Sub(p)    == {p} \cup Below(p)
 NestedPos == UNION {Below(p) : p \in AllPos}
 Outer(p)  == {q \in AllPos : p \in Below(q)}
+DeepPos   == ToSet(Input.deep)               \* positions whose parent component is not the top
 
 HarnessOf(f)  == ToSet(Input.harness[f])
 LocalOf(c, f) == ToSet(Input.local[c][f])
@@ -145,7 +146,7 @@ BugLoses(bug, f, e, p) ==
     \/ bug = "spawned_slice_lost"         /\ f = "sigs"
     \* only the blocks of the immediate parent are looked at: what a block further up says about
     \* the removed component is lost
-    \/ bug = "ancestor_reads_lost"        /\ f \in {"rd", "calls"} /\ e[1][1] = "" /\ Outer(p) # {}
+    \/ bug = "ancestor_reads_lost"        /\ f \in {"rd", "calls"} /\ e[1][1] = "" /\ p \in DeepPos
     \* the write of a parent's update_ff block into the removed component is lost
     \/ bug = "ff_write_lost"              /\ f = "wr" /\ \E b \in HarnessOf("ff") : b[1] = e[1]
 
